@@ -34,6 +34,10 @@ type ProcessorTask struct {
 	metrics ProcessorMetrics
 }
 
+// errErrorRecordWithoutError replaces the missing error of an sdk.ErrorRecord,
+// see ProcessorTask.markBatchRecords.
+var errErrorRecordWithoutError = cerrors.New("processor returned an error record without an error")
+
 type Processor interface {
 	// Open configures and opens a processor plugin
 	Open(ctx context.Context) error
@@ -156,6 +160,13 @@ func (t *ProcessorTask) markBatchRecords(b *Batch, from int, records []sdk.Proce
 		errs := make([]error, len(records))
 		for i, rec := range records {
 			errs[i] = rec.(sdk.ErrorRecord).Error
+			if errs[i] == nil {
+				// An error record without an error is still a rejection. A nil
+				// error would be dereferenced when the DLQ record is built and,
+				// with the DLQ disabled, returned as "no error", which lets the
+				// pipeline continue past a record that was never handled.
+				errs[i] = errErrorRecordWithoutError
+			}
 		}
 		b.Nack(from, errs...)
 	case sdk.MultiRecord:
